@@ -12,7 +12,8 @@ FIELDS = ["a", "b"]
 ACC_B = "acc_b"
 FIELDS_B = ["p", "q"]
 # value choices of an invocation: they share values field-wise so that deduplication has something to remove and something to keep
-CHOICES = {1: ("%v0", "%v1"), 2: ("%v0", "%v2"), 3: ("IV", "%v1"), 4: ("%v2", "IV"), 5: ("IV", "OIV")}    # OIV: the enclosing loop's variable
+# OIV: the enclosing loop's variable; choice 6 computes both values from both loop variables (input operations inside the inner body)
+CHOICES = {1: ("%v0", "%v1"), 2: ("%v0", "%v2"), 3: ("IV", "%v1"), 4: ("%v2", "IV"), 5: ("IV", "OIV"), 6: ("IV*OIV", "IV+OIV")}
 
 
 def tlc_programs(pid, nv, maxnodes, maxdepth, withcalls=True):
@@ -74,9 +75,22 @@ def render(tokens, acc=ACC, fields=FIELDS, launch=()):
     open_loops = []        # (token index, nesting level at which the loop was opened)
     used = set()
     last = [None, 0]       # the most recent state and the nesting level it was defined at; None once it is no longer the current state
+    def computed(vals):
+        out = []
+        for v in vals:
+            if v in ("IV*OIV", "IV+OIV"):
+                a, b = (ivs[-1] if ivs else "%v2"), (ivs[-2] if len(ivs) > 1 else "%v2")
+                x = fresh("x")
+                emit(f"{x} = arith.{'muli' if '*' in v else 'addi'} {a}, {b} : i32")
+                used.update([a, b])
+                out.append(x)
+            else:
+                out.append(v)
+        return out
     for ti, t in enumerate(tokens):
         if t.startswith("I"):
             vals = [(ivs[-1] if ivs else "%v2") if v == "IV" else (ivs[-2] if len(ivs) > 1 else "%v2") if v == "OIV" else v for v in CHOICES[int(t[1:])]]
+            vals = computed(vals)
             used.update(vals)
             s, tk = fresh("s"), fresh("t")
             args = ", ".join(f'"{f}" = {v} : i32' for f, v in zip(FIELDS, vals))
@@ -88,6 +102,7 @@ def render(tokens, acc=ACC, fields=FIELDS, launch=()):
         elif t.startswith("J"):
             # an invocation on a second accelerator (its own state chain; calls with effects clobber both)
             vals = [(ivs[-1] if ivs else "%v2") if v == "IV" else (ivs[-2] if len(ivs) > 1 else "%v2") if v == "OIV" else v for v in CHOICES[int(t[1:])]]
+            vals = computed(vals)
             used.update(vals)
             s, tk = fresh("u"), fresh("w")
             args = ", ".join(f'"{f}" = {v} : i32' for f, v in zip(FIELDS_B, vals))
